@@ -50,7 +50,9 @@ def tune_inv_mm_full(history: Position) -> Array:
     """
 
     matrix = _history_to_matrix(history)
-    cov = jnp.cov(matrix, rowvar=False)
+    # not `rowvar=False`: for a single-row history numpy/jax would not transpose and
+    # return a matrix of the wrong shape
+    cov = jnp.cov(matrix.T)
     cov = jnp.atleast_2d(cov)
 
     # stan regularization, see:
